@@ -46,6 +46,13 @@ type harness struct {
 	sutSelSys uint32
 	expect   []refhsms.Header // expected outbound frames (body checked separately for S9F1)
 	expectS9 map[int][10]byte // index in expect -> offending header for S9F1
+	// optS9: expected S9F1s that the library may legitimately never write. S9F1 is a DATA message
+	// queued on the asynchronous send path; if the peer's sequence deselects the session before
+	// the writer goroutine drains the queue, the library's not-selected gate drops it (data flows
+	// only while Selected, C07). So an S9F1 followed later in the same sequence by a frame that takes the
+	// session out of Selected (Deselect.req, Separate.req, refused select) is optional (if present it
+	// must be exact and in FIFO position); otherwise it is mandatory.
+	optS9 map[int]bool
 	expDeliv []frame
 	expSel   bool
 	expEnd   bool // the sequence makes the SUT close the connection
@@ -168,7 +175,7 @@ func genScenario(t *core.Tape, faulty bool) scenario {
 // Build returns the scenario builder.
 func Build(config string) core.BuildFunc {
 	return func(w *core.World) *core.Scenario {
-		h := &harness{w: w, expectS9: map[int][10]byte{}}
+		h := &harness{w: w, expectS9: map[int][10]byte{}, optS9: map[int]bool{}}
 		h.sc = genScenario(w.T, config == "faulty")
 		sc := h.sc
 		sess := sc.Session
@@ -281,6 +288,9 @@ func (h *harness) model(in []frame) {
 			if sel {
 				st = 0
 			}
+			if sel {
+				h.s9MayBeGated() // every S9F1 queued so far may be gated out by this deselect
+			}
 			sel = false
 			emit(refhsms.Header{Session: f.H.Session, B3: st, SType: refhsms.STDeselectRsp, Sys: f.H.Sys})
 		case f.H.SType == refhsms.STLinktestReq:
@@ -307,10 +317,17 @@ func (h *harness) model(in []frame) {
 			}
 		}
 		if h.expEnd {
+			h.s9MayBeGated() // the session ends: queued S9F1s meet the not-selected gate or the teardown
 			break
 		}
 	}
 	h.expSel = sel
+}
+
+func (h *harness) s9MayBeGated() {
+	for idx := range h.expectS9 {
+		h.optS9[idx] = true
+	}
 }
 
 func definedSType(s byte) bool {
@@ -434,6 +451,17 @@ func (h *harness) done() bool {
 	if h.expEnd {
 		return !h.c.Alive() && h.c.L.ToLib().InFlight() == 0
 	}
+	if !h.sc.Active && h.sc.SecondAt >= 0 {
+		// The second-connection verdict needs the library's close of that socket to have crossed the
+		// simulated network (one latency after the library's Close): do not end the run at the very
+		// instant of the accept. A socket the library keeps open is still reported, after 5 s.
+		if !h.secondTried {
+			return false
+		}
+		if h.c2 != nil && h.c2.Alive() && h.w.Now() < h.secondAt+5*time.Second {
+			return false
+		}
+	}
 	out := h.outFrames()
 
 	return len(out) > 0 && out[len(out)-1].H.Sys == barrierSys && out[len(out)-1].H.SType == refhsms.STLinktestRsp
@@ -447,14 +475,27 @@ func (h *harness) final(reason string) {
 		return
 	}
 	out := h.outFrames()
-	// exact comparison, FIFO
-	for i := 0; i < len(out) || i < len(h.expect); i++ {
+	// exact comparison, FIFO (i indexes the expectation, j the frames actually sent)
+	isS9F1 := func(g refhsms.RxFrame) bool {
+		return g.H.SType == 0 && g.H.PType == 0 && g.H.Stream() == 9 && g.H.Function() == 1
+	}
+	i, j := 0, 0
+	for i < len(h.expect) || j < len(out) {
 		if i >= len(h.expect) {
-			w.Fail("EXTRA_FRAME", "the library sent an unexpected frame #%d: %s (expected %d frames)%s", i, out[i].H, len(h.expect), h.ctx(i))
+			w.Fail("EXTRA_FRAME", "the library sent an unexpected frame #%d: %s (expected %d frames)%s", j, out[j].H, len(h.expect), h.ctx(i))
 
 			return
 		}
-		if i >= len(out) {
+		if off, isS9 := h.expectS9[i]; isS9 && h.optS9[i] && (j >= len(out) || !isS9F1(out[j]) ||
+			!bytes.Equal(out[j].Body, append([]byte{0x21, 0x0A}, off[:]...))) {
+			// not this S9F1 (a later one, or another frame): the optional one was gated out. A frame that
+			// matches nothing still fails below against the next mandatory expectation or as EXTRA_FRAME.
+			w.Probe("s9f1_gated_out_by_later_session_exit")
+			i++
+
+			continue
+		}
+		if j >= len(out) {
 			if h.expEnd && !h.c.Alive() {
 				// The sequence ends the session (peer Separate / refused select). Responses that were
 				// still queued for sending when the library tore the connection down are discarded, not
@@ -467,22 +508,26 @@ func (h *harness) final(reason string) {
 
 			return
 		}
-		exp, got := h.expect[i], out[i]
+		exp, got := h.expect[i], out[j]
 		if off, isS9 := h.expectS9[i]; isS9 {
 			wantBody := append([]byte{0x21, 0x0A}, off[:]...)
-			if got.H.SType != 0 || got.H.PType != 0 || got.H.Stream() != 9 || got.H.Function() != 1 || got.H.W() || got.H.Session != exp.Session || !bytes.Equal(got.Body, wantBody) {
-				w.Fail("WRONG_FRAME", "frame #%d: expected S9F1 carrying header %x from session %d, got %s body %x%s", i, off, exp.Session, got.H, got.Body, h.ctx(i))
+			if !isS9F1(got) || got.H.W() || got.H.Session != exp.Session || !bytes.Equal(got.Body, wantBody) {
+				w.Fail("WRONG_FRAME", "frame #%d: expected S9F1 carrying header %x from session %d, got %s body %x%s", j, off, exp.Session, got.H, got.Body, h.ctx(i))
 
 				return
 			}
+			i++
+			j++
 
 			continue
 		}
 		if got.H != exp || len(got.Body) != 0 {
-			w.Fail("WRONG_FRAME", "frame #%d: expected %s, got %s (body %d bytes)%s", i, exp, got.H, len(got.Body), h.ctx(i))
+			w.Fail("WRONG_FRAME", "frame #%d: expected %s, got %s (body %d bytes)%s", j, exp, got.H, len(got.Body), h.ctx(i))
 
 			return
 		}
+		i++
+		j++
 	}
 	// deliveries
 	nh := 2
